@@ -21,6 +21,7 @@ package parser
 // analyzer.go contains utility analysis functions.
 
 import (
+	"fmt"
 	"strings"
 	"unicode"
 )
@@ -198,8 +199,15 @@ func SplitStatementToPieces(blob string) (pieces []string, err error) {
 
 	stmt := ""
 	emptyStatement := true
+	lastOffset, lastToken := -1, 0
 	for stmtBegin := 0; stmtBegin < len(blob); {
 		tkn, pos, _ := tokenizer.scan()
+		// every token starts behind the one before: the scanner returns an illegal character
+		// without consuming it, and would return it forever
+		if pos.Offset == lastOffset && tkn == lastToken {
+			return nil, fmt.Errorf("invalid character at offset %d of the statement", pos.Offset)
+		}
+		lastOffset, lastToken = pos.Offset, tkn
 		switch tkn {
 		case ';':
 			stmt = blob[stmtBegin:pos.Offset]
